@@ -331,6 +331,26 @@ def compare(ref, cur, vocab, local_names, local_names_ref=frozenset()):
                                 '%s = <empty> is now initialised outside the loop that rebuilt it'
                                 % nm))
                     return out
+    # N: elements dropped from one tuple / list / set display of an otherwise unchanged statement
+    # (the components of a key, of a hash, of a comparison tuple)
+    if len(ref['stmts']) == len(cur['stmts']) and same['compound']:
+        pos = _diff_positions(ref['stmts'], cur['stmts'])
+        if len(pos) == 1:
+            try:
+                ta, tb = ast.parse(ref['stmts'][pos[0]]), ast.parse(cur['stmts'][pos[0]])
+            except SyntaxError:
+                ta = tb = None
+            d = _first_difference(ta, tb) if ta is not None else None
+            if d is not None:
+                x, y = d
+                if type(x) is type(y) and isinstance(x, (ast.Tuple, ast.List, ast.Set)) and \
+                        isinstance(getattr(x, 'ctx', ast.Load()), ast.Load):
+                    ex, ey = [ast.dump(e) for e in x.elts], [ast.dump(e) for e in y.elts]
+                    if len(ey) < len(ex) and _is_subsequence(ey, ex):
+                        gone = [unparse(e) for e in x.elts if ast.dump(e) not in ey]
+                        out.append(('elements dropped', '%s no longer part of %s' % (
+                            ', '.join(gone)[:100], unparse(x)[:60])))
+                        return out
     # L: the constant a flag / attribute is set to was replaced (by another constant or by an
     # expression), or an expression was replaced by a constant
     if len(ref['stmts']) == len(cur['stmts']) and same['compound']:
@@ -377,6 +397,38 @@ def _collapsed(ref_iter, cur_iter):
         if isinstance(n, ast.Subscript) and isinstance(n.slice, ast.Slice) and \
                 unparse(n.value) == ref_iter:
             return 'slice: elements are left out'
+    return None
+
+
+def _is_subsequence(short, long_):
+    it = iter(long_)
+    return all(any(x == y for y in it) for x in short)
+
+
+def _first_difference(a, b):
+    """The first pair of nodes at which two trees of the same shape differ, or None."""
+    if type(a) is not type(b):
+        return (a, b)
+    if isinstance(a, (ast.Tuple, ast.List, ast.Set)) and len(a.elts) != len(b.elts):
+        return (a, b)
+    for (fa, va), (fb, vb) in zip(ast.iter_fields(a), ast.iter_fields(b)):
+        if isinstance(va, list) and isinstance(vb, list):
+            if len(va) != len(vb):
+                return (a, b)
+            for x, y in zip(va, vb):
+                if isinstance(x, ast.AST) and isinstance(y, ast.AST):
+                    d = _first_difference(x, y)
+                    if d is not None:
+                        return d
+                elif x != y:
+                    return (a, b)
+        elif isinstance(va, ast.AST) and isinstance(vb, ast.AST):
+            d = _first_difference(va, vb)
+            if d is not None:
+                return d
+        elif va != vb and fa not in ('lineno', 'col_offset', 'end_lineno', 'end_col_offset',
+                                     'ctx', 'kind', 'type_comment'):
+            return (a, b)
     return None
 
 
